@@ -136,6 +136,42 @@ theorem run_convBlock {s : Shape} (stk tr) (hs : Pos s) (hp : 1 < numel s) :
     run_cons_ok (step_conv_same (by decide) (by decide) stk tr hs), run_cons_ok (step_instNorm stk tr hp)]
   rfl
 
+/-- one level of the U-Net around an inner program `inner` that preserves the pooled shape; `fin` (executed inside the last
+hooked block) preserves every positive shape -/
+theorem unetLevel_ok (inner fin : List Op)
+    (hfin : ∀ (s : Shape) (stk tr), Pos s → run fin ⟨s, stk, tr⟩ = .ok ⟨s, stk, tr⟩)
+    (L : Nat) (ih : ∀ (s : Shape) (stk tr), UAdm L s → ∃ tr', run inner ⟨s, stk, tr⟩ = .ok ⟨s, stk, tr'⟩) :
+    ∀ (s : Shape) (stk tr), UAdm (L + 1) s →
+      ∃ tr', run (convBlock UnetP.std ++ [.emit, .push, .avgPool UnetP.std.pk UnetP.std.ps] ++ inner ++
+        [.convT UnetP.std.tk UnetP.std.ts 0, .instNorm, .emit, .popPadCat] ++ convBlock UnetP.std ++ fin ++ [.emit])
+        ⟨s, stk, tr⟩ = .ok ⟨s, stk, tr'⟩ := by
+  intro s stk tr h
+  have hpos := UAdm.pos h
+  have hprod := UAdm.prod h
+  obtain ⟨tr1, h1⟩ := ih (s.map (· / 2)) (s :: stk) (tr ++ [s]) h.2
+  refine ⟨tr1 ++ [s.map fun n => 2 * (n / 2)] ++ [s], ?_⟩
+  simp only [List.append_assoc]
+  rw [run_append_ok (run_convBlock stk tr hpos hprod)]
+  simp only [List.cons_append, List.nil_append, show UnetP.std.pk = 2 from rfl, show UnetP.std.ps = 2 from rfl,
+    show UnetP.std.tk = 2 from rfl, show UnetP.std.ts = 2 from rfl]
+  rw [run_cons_ok (step_emit _ _ _), run_cons_ok (step_push _ _ _), run_cons_ok (step_pool2 _ _ h.1),
+    run_append_ok h1]
+  have hpos2 : Pos (s.map (· / 2)) := UAdm.pos h.2
+  rw [run_cons_ok (step_convT2 _ _ hpos2)]
+  have hprod2 : 1 < numel (List.map (fun x => 2 * x) (s.map (· / 2))) := by
+    have := UAdm.prod h.2
+    refine Nat.lt_of_lt_of_le this ?_
+    rw [List.map_map]
+    exact prod_map_le_prod_map (g := (fun x => 2 * x) ∘ fun x => x / 2) fun n _ => by
+      simp only [Function.comp]; omega
+  rw [run_cons_ok (step_instNorm _ _ hprod2), run_cons_ok (step_emit _ _ _)]
+  rw [List.map_map]
+  simp only [Function.comp_def]
+  rw [run_cons_ok (step_popPadCat (fun n => 2 * (n / 2)) stk _ (by
+    intro n hn; have := h.1 n hn; simp only [upPad]; split <;> simp_all <;> omega))]
+  rw [run_append_ok (run_convBlock stk _ hpos hprod), run_append_ok (hfin s stk _ hpos)]
+  simp [run, step, Function.comp_def]
+
 theorem unetLv_ok (L : Nat) : ∀ (s : Shape) (stk tr), UAdm L s →
     ∃ tr', run (unetLv UnetP.std L) ⟨s, stk, tr⟩ = .ok ⟨s, stk, tr'⟩ := by
   induction L with
@@ -147,31 +183,8 @@ theorem unetLv_ok (L : Nat) : ∀ (s : Shape) (stk tr), UAdm L s →
     rfl
   | succ L ih =>
     intro s stk tr h
-    have hpos := UAdm.pos h
-    have hprod := UAdm.prod h
-    obtain ⟨tr1, h1⟩ := ih (s.map (· / 2)) (s :: stk) (tr ++ [s]) h.2
-    refine ⟨tr1 ++ [s.map fun n => 2 * (n / 2)] ++ [s], ?_⟩
-    simp only [unetLv, List.append_assoc]
-    rw [run_append_ok (run_convBlock stk tr hpos hprod)]
-    simp only [List.cons_append, List.nil_append, show UnetP.std.pk = 2 from rfl, show UnetP.std.ps = 2 from rfl,
-      show UnetP.std.tk = 2 from rfl, show UnetP.std.ts = 2 from rfl]
-    rw [run_cons_ok (step_emit _ _ _), run_cons_ok (step_push _ _ _), run_cons_ok (step_pool2 _ _ h.1),
-      run_append_ok h1]
-    have hpos2 : Pos (s.map (· / 2)) := UAdm.pos h.2
-    rw [run_cons_ok (step_convT2 _ _ hpos2)]
-    have hprod2 : 1 < numel (List.map (fun x => 2 * x) (s.map (· / 2))) := by
-      have := UAdm.prod h.2
-      refine Nat.lt_of_lt_of_le this ?_
-      rw [List.map_map]
-      exact prod_map_le_prod_map (g := (fun x => 2 * x) ∘ fun x => x / 2) fun n _ => by
-        simp only [Function.comp]; omega
-    rw [run_cons_ok (step_instNorm _ _ hprod2), run_cons_ok (step_emit _ _ _)]
-    rw [List.map_map]
-    simp only [Function.comp_def]
-    rw [run_cons_ok (step_popPadCat (fun n => 2 * (n / 2)) stk _ (by
-      intro n hn; have := h.1 n hn; simp only [upPad]; split <;> simp_all <;> omega))]
-    rw [run_append_ok (run_convBlock stk _ hpos hprod)]
-    simp [run, step, Function.comp_def]
+    have := unetLevel_ok (unetLv UnetP.std L) [] (fun _ _ _ _ => rfl) L ih s stk tr h
+    simpa only [unetLv, List.append_nil, List.append_assoc] using this
 
 
 /-! map-form step lemmas: every shape is `s.map g` -/
@@ -249,14 +262,40 @@ theorem mult16_eq (n : Nat) : mult16 n = 16 * ((n + 15) / 16) := by
 /-! ## composite stack operations = their fine-grained expansion -/
 
 theorem step_expand1 (op : Op) (st : State) : run (expand1 op) st = step op st := by
-  cases op <;> simp only [expand1, run] <;> try (cases step _ st <;> rfl)
-  all_goals
-    obtain ⟨cur, stack, trace⟩ := st
+  obtain ⟨cur, stack, trace⟩ := st
+  have base : ∀ o : Op, run [o] ⟨cur, stack, trace⟩ = step o ⟨cur, stack, trace⟩ := by
+    intro o; simp only [run]; cases step o ⟨cur, stack, trace⟩ <;> rfl
+  cases op
+  case popPadCat =>
     cases stack with
-    | nil => simp [step, run]
+    | nil => rfl
     | cons t rest =>
-      simp only [step]
-      split <;> simp_all [run, step]
+      simp only [expand1, run, step]
+      by_cases h : t.length = cur.length ∧
+          (List.zipWith (fun p n => reflectOk 0 p n) (List.zipWith upPad t cur) cur).all id = true
+      · by_cases h2 : List.zipWith (fun x1 x2 => x1 + x2) cur (List.zipWith upPad t cur) = t
+        · simp only [if_pos h, if_pos h2, step]
+        · simp only [if_pos h, if_neg h2, step]
+      · simp only [if_neg h]
+  case popCropSame =>
+    cases stack with
+    | nil => rfl
+    | cons t rest =>
+      simp only [expand1, run, step]
+      by_cases h : t.length = cur.length
+      · by_cases h2 : List.zipWith cropTo t cur = t
+        · simp only [if_pos h, if_pos h2, if_pos (And.intro h h2), step, h2, if_true, and_true]
+        · simp only [if_pos h, if_neg h2, if_neg (fun c : _ ∧ _ => h2 c.2), step]
+      · simp only [if_neg h, if_neg (fun c : _ ∧ _ => h c.1)]
+  case popCrop =>
+    cases stack with
+    | nil => rfl
+    | cons t rest =>
+      simp only [expand1, run, step]
+      by_cases h : t.length = cur.length
+      · simp only [if_pos h, step]
+      · simp only [if_neg h]
+  all_goals exact base _
 
 theorem run_expand (p : List Op) (st : State) : run (expand p) st = run p st := by
   induction p generalizing st with
